@@ -193,7 +193,8 @@ impl ParseContext {
             .segments
             .borrow()
             .iter()
-            .filter(|x| !x.borrow().is_empty())
+            // an empty segment with an .org still moves the location counter of its memory
+            .filter(|x| !x.borrow().is_empty() || x.borrow().address != 0)
             .map(|x| x.borrow().clone())
             .collect();
         let macroses = self.macros.macroses.borrow().clone();
